@@ -1158,3 +1158,78 @@ def r03_10(ctx):
                         "query received on an IEEE 802.15.4 interface): Interface::poll panics when that packet is dispatched", body=b, bb=dead[0][1])
             else:
                 ctx.ok((fn, v), sample=dict(fn=fn, kind=v, handled=True))
+
+
+@rule('R04.8', ['C04', 'C01', 'C03'], floor=3, clause='remote_last_win, which the receiver shifts left by the window scale to find the right edge of its window, only ever holds a value in scaled units: scaled_window(), 0, or an unscaled SYN window shifted right by the scale')
+def r04_8(ctx):
+    """Value-shape rule on every store to remote_last_win.  Where the stored value is chosen by a test of the segment's control
+    flag (`if repr.control == Syn { w >> shift } else { w }`), the alternatives are checked per branch, and a branch is charged
+    with an unscaled window only if it is reachable from the place that put the unscaled value into the segment in the
+    product of the CFG with the value of repr.control (trace partitioning on that one finite-domain variable)."""
+    F = ctx.F
+    SOCK = 'socket::tcp::Socket'
+    TR = 'wire::tcp::Repr'
+    sw = ctx.method(SOCK, 'scaled_window')
+    ws = F.writers_of(SOCK, 'remote_last_win', kinds=('store',))
+    ctx.need(len(ws) >= 3, "stores to tcp::Socket.remote_last_win")
+
+    def flat(o):
+        o = strip(o)
+        if o[0] == 'phi':
+            out = []
+            for a in o[1]:
+                out += flat(a)
+            return out
+        return [o]
+
+    def unscaled(a):
+        a0 = strip(a)
+        while a0[0] == 'cast':
+            a0 = strip(a0[1])
+        if const_of(a0) == 0 or (a0[0] == 'call' and a0[1] == sw.key):
+            return False
+        if a0[0] == 'bin' and a0[1] == 'Shr' and any(l.endswith('.remote_win_shift') for l in leafs(a0[3])):
+            return False
+        if a0[0] == 'call' and a0[1].rsplit('::', 1)[-1] in ('shr', 'checked_shr', 'wrapping_shr') and any(l.endswith('.remote_win_shift') for l in leafs(a0)):
+            return False
+        return True
+    for w in ws:
+        b = F.body(w['fn'])
+        fnm = w['fn'].rsplit('::', 1)[-1]
+        o = simplify(store_origin(F, b, w))
+        bad = [a for a in flat(o) if unscaled(a)]
+        if bad and w['si'] != 'T':
+            # per-branch evaluation of a conditionally chosen value
+            st = b.blocks[w['bb']]['s'][w['si']]
+            rv = st[2]
+            tmp = rv[1][1][0] if rv[0] == 'use' and rv[1][0] in ('c', 'm') and rv[1][1][1] == [] else None
+            defs = [d for d in b._all_defs().get(tmp, []) if d[3] == [] and d[2] == 'a'] if tmp is not None else []
+            if len(defs) >= 2:
+                srcs = [x['bb'] for x in F.field_writes() if x['fn'] == b.key and x['adt'] == TR and x['field'] == 'window_len' and x['kind'] == 'store'
+                        and any(unscaled(a) for a in flat(simplify(store_origin(F, b, x))))]
+                rl = [i for i, l in enumerate(b.locals) if l['ty'].startswith(TR) and l.get('name') == 'repr']
+                still = []
+                if srcs and rl:
+                    from ..fdai import FDAI, run_split
+                    r = run_split(FDAI(F), b, {}, (('l', rl[0]), (('f', 'control', TR, '-'),)))
+                    seen = set(n for n in r.nodes if n[0] in srcs)
+                    stack = list(seen)
+                    while stack:
+                        n = stack.pop()
+                        for (m, lab) in r.edges.get(n, ()):
+                            if m not in seen:
+                                seen.add(m)
+                                stack.append(m)
+                    reach_bbs = {n[0] for n in seen}
+                    for d in defs:
+                        alts_d = flat(simplify(F.origin.rvalue(b, d[4], d[0], d[1], 0, None)))
+                        if any(unscaled(a) for a in alts_d) and d[0] in reach_bbs:
+                            still.append(d[0])
+                    bad = bad if still else []
+        if bad:
+            ctx.bad(f"{fnm}|remote_last_win|unscaled", f"{fnm} records {show(bad[0])[:70]} in remote_last_win: an unscaled window (the SYN / SYN|ACK field) is later shifted left "
+                    "by the window scale, so the receiver accepts data up to 2^shift times beyond the window it advertised - beyond the receive buffer itself for buffers over 64 KiB", body=b, bb=w['bb'])
+        else:
+            ctx.ok((fnm, 'remote_last_win', w['bb']), sample=dict(fn=fnm, stores=show(o)[:80]))
+
+
